@@ -1,3 +1,5 @@
+//go:build verif_c18
+
 package main
 
 // C18 — the Set*/Get* pairs whose options are one structure (generic engine in c18.go).
